@@ -66,11 +66,37 @@ DIMS = [
     ('pos', ['last', 'middle']),
     ('on_error', ['return', 'raise']),
     ('verbose', [0, 3]),
+    # the stdout the library finds (and tees into at verbosity >= 2): a StringIO, an object that only has
+    # write(), an object whose flush() raises
+    ('host', ['stringio', 'writeonly', 'flushraises']),
 ]
+
+
+class WriteOnly(object):
+    def __init__(self):
+        self.data = []
+
+    def write(self, s):
+        self.data.append(s)
+        return len(s)
+
+
+class FlushRaises(io.StringIO):
+    def flush(self):
+        raise OSError('broken pipe (simulated)')
+
+
+def current_loop():
+    # the loop installed as the thread's current loop (not necessarily running)
+    try:
+        return getattr(asyncio.get_event_loop_policy()._local, '_loop', None)
+    except Exception:
+        return None
 
 
 def snap():
     return {
+        'current-event-loop': current_loop(),
         'sys.stdout': sys.stdout, 'sys.stderr': sys.stderr, 'sys.path': list(sys.path),
         'warnings.filters': list(warnings.filters), 'warnings.showwarning': warnings.showwarning,
         'running-loop': asyncio._get_running_loop(),
@@ -84,7 +110,7 @@ def diff(before, after):
     for k in before:
         a, b = before[k], after[k]
         same = (a is b) if k in ('sys.stdout', 'sys.stderr', 'warnings.showwarning', 'running-loop',
-                                 'sys.displayhook', 'sys.excepthook') else (a == b)
+                                 'sys.displayhook', 'sys.excepthook', 'current-event-loop') else (a == b)
         if not same:
             bad.append(k)
     return bad
@@ -100,9 +126,17 @@ def restore(before):
     warnings.showwarning = before['warnings.showwarning']
     sys.displayhook = before['sys.displayhook']
     sys.excepthook = before['sys.excepthook']
+    cur = current_loop()
+    if cur is not before.get('current-event-loop'):
+        try:
+            if cur is not None and not cur.is_closed():
+                cur.close()
+            asyncio.set_event_loop(before.get('current-event-loop'))
+        except Exception:
+            pass
 
 
-def run_doctest_case(lines, on_error, verbose, modsrc=None, tag='c12', path_edit=None):
+def run_doctest_case(lines, on_error, verbose, modsrc=None, tag='c12', path_edit=None, host='stringio'):
     """returns (how it ended, leaked keys)"""
     from xdoctest.doctest_example import DocTest
     with contextlib.ExitStack() as stack:
@@ -118,7 +152,7 @@ def run_doctest_case(lines, on_error, verbose, modsrc=None, tag='c12', path_edit
         t = DocTest('\n'.join(lines), **kw)
         t.mode = 'native'
         t.config['colored'] = False
-        sink = io.StringIO()
+        sink = {'stringio': io.StringIO, 'writeonly': WriteOnly, 'flushraises': FlushRaises}[host]()
         saved_out = sys.stdout
         sys.stdout = sink                  # the "original" stdout as the library finds it
         before = snap()
@@ -169,7 +203,7 @@ class OutcomeSpec(Spec):
         return len(hist) == len(DIMS)
 
     def run_case(self, hist):
-        prefix, term, pos, on_error, verbose = hist
+        prefix, term, pos, on_error, verbose, host = hist
         modsrc = None
         if term.startswith('import_'):
             tl = ['>>> x = 1']
@@ -177,16 +211,16 @@ class OutcomeSpec(Spec):
         else:
             tl = TERM[term]
         lines = PREFIX[prefix] + tl + (['>>> y = 2'] if pos == 'middle' else [])
-        how, bad, t = run_doctest_case(lines, on_error, verbose, modsrc,
+        how, bad, t = run_doctest_case(lines, on_error, verbose, modsrc, host=host,
                                        path_edit={'import_pathins_then_raises': ('front', '/nonexistent_zz'),
                                                   'import_pathapp_then_ImportError': ('end', '/nonexistent_yy')}.get(term))
         atoms = []
         for k in bad:
             atoms.append({'sig': 'leak:%s:after-%s' % (k, term if term.startswith('import_') else how.split(':')[0]),
-                          'msg': '%s changed by run(on_error=%s, verbose=%d) which %s; doctest:\n%s' % (
-                              k, on_error, verbose, how, '\n'.join(lines))})
+                          'msg': '%s changed by run(on_error=%s, verbose=%d, host stdout %s) which %s; doctest:\n%s' % (
+                              k, on_error, verbose, host, how, '\n'.join(lines))})
         return {'atoms': atoms, 'outcome': how, 'case': {'doctest': '\n'.join(lines), 'module': modsrc,
-                                                         'on_error': on_error, 'verbose': verbose},
+                                                         'on_error': on_error, 'verbose': verbose, 'host_stdout': host},
                 'nontrivial': term != 'pass' or prefix != 'none'}
 
 
